@@ -34,8 +34,9 @@ def cases(ctx):
     n = ctx.budget(120, 2400)
     for it in range(n):
         kind = ['gauss', 'yuk', 'exp', 'sph'][it % 4]
-        rmax = float(rng.choice([25.6, 51.2, 102.4]))
+        rmax = float(rng.choice([25.6, 51.2, 102.4, 20.5, 41.0, 28.7]))          # lengths 2^n, 41*2^n*5, 7*41*2^n
         dr0 = float(rng.choice([0.2, 0.1, 0.05] if rmax < 100 else [0.2, 0.1]))
+        rmax = round(rmax / dr0) * dr0                 # r_max must be a multiple of the coarsest spacing
         lo = 8 * dr0
         if kind == 'gauss':
             w = float(rng.uniform(lo, rmax / 7.5))          # exp(-(rmax/w)^2) < 1e-24
